@@ -74,5 +74,26 @@ for c in payload['cases']:
         except Exception as ex:  # noqa
             r['build_exc'] = f'{type(ex).__name__}: {str(ex)[:300]}'
         res['variants'].append(r)
+    # (d) HISTORY on one prepared expression (persistent IdManager): successive partial dictionaries
+    if not poisoned and c.get('history'):
+        try:
+            from biogeme.expressions import IdManager
+            var0 = c['variants'][0]
+            e3 = build(var0['tree'], var0['betas'])
+            db3 = Database('t', pd.DataFrame(c['rows']))
+            idm = IdManager([e3], db3, 0)
+            e3.set_id_manager(idm)
+            hist = []
+            for d in c['history']:
+                try:
+                    vals = e3.get_value_c(database=db3, betas=d, prepare_ids=False)
+                    hist.append([enc(v) for v in vals])
+                except Exception as ex:  # noqa
+                    hist.append(f'{type(ex).__name__}: {str(ex)[:160]}')
+                    poisoned = True
+                    break
+            res['history'] = hist
+        except Exception as ex:  # noqa
+            res['history_exc'] = f'{type(ex).__name__}: {str(ex)[:200]}'
     out.append(res)
 print('@@' + json.dumps(out))
